@@ -743,8 +743,8 @@ func init() {
 	register(&Rule{
 		ID:    "C19.clamp",
 		Props: []string{"C19"},
-		Doc:   "in a Forward body the argument of acos/asin depends on angles only and is mathematically within [-1,1] for every input, so rounding is the only way out of the domain: it must be clamped (math.Max/Min with ±1) — otherwise Forward is NaN at isolated in-domain points such as the centre",
-		Floor: 1,
+		Doc:   "inverse trigonometric functions in Forward are well conditioned on the domain: (a) the argument of an acos/asin that depends on angles only is clamped to [-1,1] (rounding is the only way out of the domain, e.g. exactly at the centre, and gives NaN); (b) a projection whose Reverse special-cases the centre does not measure the distance from the centre as the arc cosine of its cosine (flat at 0: the centre and its neighbourhood lose all precision) — atan2 of sine and cosine is used instead",
+		Floor: 9,
 		Run:   runC19Clamp,
 	})
 }
@@ -754,12 +754,32 @@ func runC19Clamp(c *Ctx) {
 	for _, p := range cartoProjections(c) {
 		f := p.forward
 		fn := FuncName(f)
+		n++
+		// does Reverse special-case the centre (rho == 0)? then Forward measures a
+		// distance from a centre, and must do so accurately AT the centre
+		hasCentre := false
+		eachInstr(p.reverse, func(in ssa.Instruction) {
+			if bo, ok := in.(*ssa.BinOp); ok && (bo.Op == token.EQL || bo.Op == token.NEQ) && isFloat(bo.X.Type()) {
+				if k, isC := bo.Y.(*ssa.Const); isC && k.Value != nil && k.Value.String() == "0" {
+					for _, r := range *bo.Referrers() {
+						if _, isIf := r.(*ssa.If); isIf {
+							hasCentre = true
+						}
+					}
+				}
+			}
+		})
+		uses := 0
 		eachCall(f, func(call ssa.CallInstruction) {
 			name := calleeName(call)
 			if name != "carto.acos" && name != "carto.asin" && name != "math.Acos" && name != "math.Asin" {
 				return
 			}
-			n++
+			uses++
+			if hasCentre && strings.HasSuffix(strings.ToLower(name), "acos") {
+				c.Bad(call.Pos(), fn, "distance from the centre", "the angular distance from the projection centre is taken as the arc cosine of its cosine, which is flat at 0: at and near the centre all precision is lost (the centre itself does not map to the origin within 1e-9 degrees); use atan2 of sine and cosine")
+				return
+			}
 			arg := stripLoad(call.Common().Args[0])
 			construct := "argument of " + name
 			// clamp: Max(-1, Min(1, x)) or Min(1, Max(-1, x))
@@ -791,9 +811,12 @@ func runC19Clamp(c *Ctx) {
 				c.Bad(call.Pos(), fn, construct, "angular expression "+trunc(as)+" is passed to "+name+" unclamped: rounding can push it just outside [-1,1] (e.g. exactly at the projection centre), giving NaN for an in-domain point")
 			}
 		})
+		if uses == 0 {
+			c.OK(f.Pos(), fn, "inverse trigonometric functions", "Forward takes no arc sine / arc cosine of an angular expression")
+		}
 	}
-	if n < 1 {
-		c.Errorf("no acos/asin call found in any Forward body (expected AzimuthalEquidistant)")
+	if n < 9 {
+		c.Errorf("only %d projections found, expected 9", n)
 	}
 }
 
